@@ -22,7 +22,8 @@ ValueMaps == {[f \in {} |-> Inner(TRUE, [q \in {} |-> V0])]}
 Kinds == {"put", "delete", "append", "increment"}
 Tss == {[latest |-> TRUE, bytes |-> Latest], [latest |-> FALSE, bytes |-> <<0, 0, 0, 0, 0, 0, 0, 5>>],
         [latest |-> FALSE, bytes |-> <<255, 255, 255, 255, 255, 255, 255, 254>>],
-        [latest |-> FALSE, bytes |-> <<0, 0, 0, 0, 0, 0, 0, 0>>]}     \* an explicit timestamp of 0 is a timestamp like any other
+        [latest |-> FALSE, bytes |-> <<0, 0, 0, 0, 0, 0, 0, 0>>],
+        [latest |-> FALSE, bytes |-> <<0, 5, 79, 148, 66, 252, 5, 123>>]}   \* 1494873081120123: microseconds since the epoch, not milliseconds - the client's business it is not     \* an explicit timestamp of 0 is a timestamp like any other
 Mutations == {m \in [kind : Kinds, values : ValueMaps, ts : Tss, oneVersion : BOOLEAN] :
                  /\ (m.oneVersion => m.kind = "delete")
                  /\ ~(m.oneVersion /\ DOMAIN m.values = {})}    \* rejected by NewDel
